@@ -12,6 +12,7 @@ package main
 import (
 	"bytes"
 	"context"
+	"encoding/json"
 	"errors"
 	"flag"
 	"fmt"
@@ -108,8 +109,17 @@ func raceWindow(h *raceH, p *prng, rounds int) {
 	must(b.RegisterNode("v2", &markNode{2}))
 	must(b.RegisterNode("fmt", &eventlogger.JSONFormatter{}))
 	must(b.RegisterNode("sink", nopSink{}))
+	// a long pipeline: whatever an overwriting registration does between taking the old version out and
+	// putting the new one in takes a while
+	var pads []eventlogger.NodeID
+	for k := 0; k < 48; k++ {
+		id := eventlogger.NodeID(fmt.Sprintf("pad%d", k))
+		must(b.RegisterNode(id, &eventlogger.Filter{Predicate: func(*eventlogger.Event) (bool, error) { return true, nil }}))
+		pads = append(pads, id)
+	}
 	pl := func(v string) eventlogger.Pipeline {
-		return eventlogger.Pipeline{PipelineID: "p", EventType: "t", NodeIDs: []eventlogger.NodeID{eventlogger.NodeID(v), "fmt", "sink"}}
+		ids := append([]eventlogger.NodeID{eventlogger.NodeID(v)}, pads...)
+		return eventlogger.Pipeline{PipelineID: "p", EventType: "t", NodeIDs: append(ids, "fmt", "sink")}
 	}
 	must(b.RegisterPipeline(pl("v1")))
 	must(b.SetSuccessThreshold("t", 1))
@@ -127,12 +137,13 @@ func raceWindow(h *raceH, p *prng, rounds int) {
 				n := cp.hits[1] + cp.hits[2]
 				if n != 1 || err != nil {
 					h.oracle("C07 while pipeline p was overwritten a Send was processed by %d versions (v1=%d v2=%d), err=%v: never both and never neither", n, cp.hits[1], cp.hits[2], err)
+					h.oracle("C04 a Send overlapping an overwriting registration of pipeline p (registered all along, never removed) was delivered %d times, err=%v: no sequential order of the calls explains that", n, err)
 					return
 				}
 			}
 		}()
 	}
-	for i := 0; i < rounds; i++ {
+	for i := 0; i < rounds*8; i++ {
 		v := "v2"
 		if i%2 == 1 {
 			v = "v1"
@@ -450,6 +461,29 @@ func raceStock(h *raceH, p *prng, rounds int, dir string, withEnc bool) {
 			}
 			if strings.Contains(line, "s3cr3t") && strings.Contains(line, "\"Secret\"") {
 				// only pipelines through enc redact; others legitimately carry the plaintext
+			}
+		}
+		// the file sink, shared by pipelines and senders, reopened and rotated meanwhile: whole lines only, and
+		// its counter describes the file it is writing to
+		if ents, err := os.ReadDir(filepath.Join(dir, fmt.Sprintf("stock%d", r))); err == nil && len(ents) > 0 {
+			var newest string
+			for _, e := range ents {
+				data, _ := os.ReadFile(filepath.Join(dir, fmt.Sprintf("stock%d", r), e.Name()))
+				for _, line := range strings.Split(strings.TrimSuffix(string(data), "\n"), "\n") {
+					if line != "" && !json.Valid([]byte(line)) {
+						h.oracle("C19 FileSink shared by %d pipelines / %d senders with concurrent Reopen: %s holds a line that is not a whole JSON document: %.60q", nP, nS, e.Name(), line)
+						break
+					}
+				}
+				if len(data) > 0 && data[len(data)-1] != '\n' {
+					h.oracle("C19 FileSink: %s does not end at an event boundary", e.Name())
+				}
+				if e.Name() > newest {
+					newest = e.Name()
+				}
+			}
+			if fi, err := os.Stat(filepath.Join(dir, fmt.Sprintf("stock%d", r), newest)); err == nil && fi.Size() != fsink.BytesWritten {
+				h.oracle("C19 FileSink after concurrent Sends and Reopens: BytesWritten=%d but its current file %s holds %d bytes", fsink.BytesWritten, newest, fi.Size())
 			}
 		}
 		h.st.Cases++
